@@ -18,13 +18,14 @@ import (
 // equals the model's ground truth.
 
 type c01Case struct {
-	S StreamM // exactly one goroutine dump surrounded by inert junk
+	S StreamM  // exactly one goroutine dump surrounded by inert junk
+	D Delivery `json:",omitempty"` // how the reader hands the bytes over (chunks, EOF with the last data)
 }
 
 func c01Oracle(c c01Case) error {
 	it := &c.S.Items[0]
 	x := c.S.Bytes()
-	in := bytes.NewReader(x)
+	in := c.D.reader(x)
 	var prefix bytes.Buffer
 	snap, suffix, err := stack.ScanSnapshot(in, &prefix, plainOpts())
 	if err != nil && err != io.EOF {
@@ -88,7 +89,7 @@ var c01Dump = Check[c01Case]{
 		o := StreamOpts{MinItems: 1, MaxItems: 1, NoRace: true,
 			Dump: DumpOpts{MaxG: 40, MaxFrames: 150, Variants: true, LongLines: true, FreeInacc: true},
 			Junk: JunkOpts{MaxLines: 4, Binary: true}}
-		return c01Case{S: genStream(t, o)}
+		return c01Case{S: genStream(t, o), D: genDelivery(t)}
 	},
 	Oracle: c01Oracle,
 	Obs:    c01Obs,
